@@ -31,8 +31,18 @@ func propsOf(ob *Obligation, fnProps []string) []string {
 					pre = rest[:j]
 				}
 			}
-			if len(pre) >= 3 && pre[0] == 'C' && isDigits(pre[1:]) {
-				return []string{pre}
+			// "C11" or a comma list "C11,C10" (an obligation several properties rest on)
+			var ps []string
+			for _, q := range strings.Split(pre, ",") {
+				if len(q) >= 3 && q[0] == 'C' && isDigits(q[1:]) {
+					ps = append(ps, q)
+				} else {
+					ps = nil
+					break
+				}
+			}
+			if len(ps) > 0 {
+				return ps
 			}
 		}
 	}
@@ -289,7 +299,9 @@ func (P *Program) checkProperty(prop, tier string, timeoutS int, loadSecs float6
 			"explanation":      "obligations = verification conditions generated from /repo's current SSA for the functions whose contract lists this property; discharged = proved unsat (negated) by an SMT solver",
 		}}
 	b, _ := json.MarshalIndent(ev, "", " ")
-	_ = writeFile(filepath.Join(P.verifDir, "evidence", prop+".json"), string(b)+"\n")
+	if os.Getenv("VERIF_NO_EVIDENCE") == "" { // set only by tools/run_seeded.sh (runs on deliberately broken trees)
+		_ = writeFile(filepath.Join(P.verifDir, "evidence", prop+".json"), string(b)+"\n")
+	}
 	fmt.Printf("property %s: %d functions, %d obligations, %d discharged, %d known findings, %d violations, %.1fs\n",
 		prop, len(results), nObl, nDis, nKnown, nViol, time.Since(t0).Seconds())
 	if nObl == 0 {
